@@ -466,3 +466,33 @@ def iter_prologue_unit(pooling):
 
 
 UNITS += [iter_prologue_unit(0), iter_prologue_unit(1)]
+
+
+# ------------------------------------------------------------------------------ hamming_distance: the UMI distance the equality contracts use
+FSQ = 'singlecellmultiomics/utils/sequtils.py'
+
+
+def hd_strings(n):
+    def mk(eng, name):
+        s = named(STR, name)
+        eng.assume(z3.Length(s.z) == n)
+        return s
+    return mk
+
+
+def hd_unit(n):
+    DIFF = lambda i: '(1 if (a[%d] != b[%d] and a[%d] != "N" and b[%d] != "N") else 0)' % (i, i, i, i)
+    return Contract(
+        PROP, FSQ + '::hamming_distance', name='hamming_distance[UMIs of %d bases]' % n,
+        params={'a': hd_strings(n), 'b': hd_strings(n)},
+        ensures={
+            'counts_the_positions_where_two_called_bases_differ': 'result == ' + ' + '.join(DIFF(i) for i in range(n)),
+            'identical_umis_have_distance_0': 'implies(a == b, result == 0)',
+            'N_matches_everything': 'implies(all(a[i] == "N" for i in range(%d)), result == 0)' % n,
+        },
+        raises={},
+        bounded='UMIs of exactly %d characters (symbolic)' % n,
+    )
+
+
+UNITS += [hd_unit(3), hd_unit(6)]
